@@ -658,11 +658,11 @@ impl Printf {
         })
     }
 
-    fn print(&self, file_info: &WalkEntry, mut out: impl Write) {
+    fn print(&self, file_info: &WalkEntry, mut out: impl Write) -> std::io::Result<()> {
         for component in &self.format.components {
             match component {
-                FormatComponent::Literal(literal) => write!(out, "{literal}").unwrap(),
-                FormatComponent::Flush => out.flush().unwrap(),
+                FormatComponent::Literal(literal) => write!(out, "{literal}")?,
+                FormatComponent::Flush => out.flush()?,
                 FormatComponent::Directive {
                     directive,
                     width,
@@ -675,14 +675,14 @@ impl Printf {
                             let padding = " ".repeat(width.saturating_sub(content.chars().count()));
                             match justify {
                                 Justify::Left => {
-                                    write!(out, "{content}{padding}").unwrap();
+                                    write!(out, "{content}{padding}")?;
                                 }
                                 Justify::Right => {
-                                    write!(out, "{padding}{content}").unwrap();
+                                    write!(out, "{padding}{content}")?;
                                 }
                             }
                         } else {
-                            write!(out, "{content}").unwrap();
+                            write!(out, "{content}")?;
                         }
                     }
                     Err(e) => {
@@ -696,15 +696,25 @@ impl Printf {
                 },
             }
         }
+        Ok(())
     }
 }
 
 impl Matcher for Printf {
     fn matches(&self, file_info: &WalkEntry, matcher_io: &mut MatcherIO) -> bool {
-        if let Some(file) = &self.output_file {
-            self.print(file_info, file);
+        let written = if let Some(file) = &self.output_file {
+            self.print(file_info, file)
         } else {
-            self.print(file_info, &mut *matcher_io.deps.get_output().borrow_mut());
+            self.print(file_info, &mut *matcher_io.deps.get_output().borrow_mut())
+        };
+        // (a full disk, a closed pipe: reported, not a reason to panic)
+        if let Err(e) = written {
+            eprintln!(
+                "Error writing {:?} for {}",
+                file_info.path().to_string_lossy(),
+                e
+            );
+            matcher_io.set_exit_code(1);
         }
 
         true
